@@ -94,7 +94,7 @@ def enumerate_cases(tier):
 
 
 LANG_LABELS = ["English (en)", "French (fr)", "Swahili (sw)", "Tok Pisin (tpi)", "English (eng)", "English", "Klingon", "English (xx)",
-               "English (zz)", "Deutsch (english)", "English (en", "English en)", "(en) English", "English ()", "Nepali (ne)", "Amharic (am)", "xx", "EN", "q", "()"]
+               "English (zz)", "Deutsch (english)", "English (en", "English en)", "(en) English", "English ()", "Nepali (ne)", "Amharic (am)", "xx", "EN", "q", "()", "Chinese (Simplified) (zh)", "Portuguese (Brazil) (pt)", "Nested (really) (zz)"]
 
 
 @st.composite
